@@ -115,7 +115,7 @@ struct G {
 	char panic_msg[200];
 	long long run_index; uint64_t base_seed;
 	int alloc_failures; int no_write_window;
-	int64_t plain_since_sched;
+	int64_t plain_since_sched; int64_t limit_hits;
 	unsigned char *site_hit; uintptr_t text_lo; size_t text_len;
 	int tracing; FILE *trace_fp;
 };
